@@ -246,9 +246,9 @@ impl Generator {
                 self.process_stack_ops(Ext2, Some(&code.to_le_bytes()));
             }
             Ext4 => {
-                // ext4: 4-byte signed integer, must be > 0
-                // use u32 and ensure it's positive
-                let code = source.gen_u32().saturating_add(1);
+                // ext4: 4-byte *signed* integer, must be > 0: keep it in 1..=i32::MAX
+                // (a code with the top bit set is read back as a negative number)
+                let code = (source.gen_u32() & 0x7fff_ffff).max(1);
                 debug_assert!(code > 0, "EXT4 code must be > 0, got {}", code);
                 self.output.push(Ext4.as_u8());
                 self.output.extend_from_slice(&code.to_le_bytes());
